@@ -324,4 +324,42 @@ theorem matchAtK_len (kws : List (List Char)) (hk : ∀ kw ∈ kws, kw ≠ []) (
   · exact brAt_len _ _ _ s m h
   · exact variableAt_len s m h
 
+/-! ## Spans -/
+
+/-- non-empty, ordered, pairwise disjoint spans between `lo` and `hi` -/
+def SpansFrom (lo hi : Nat) : List RawMatch → Prop
+  | [] => True
+  | m :: ms => lo ≤ m.start ∧ m.start < m.stop ∧ m.stop ≤ hi ∧ SpansFrom m.stop hi ms
+
+theorem SpansFrom.weaken {lo lo' hi : Nat} (h : lo' ≤ lo) : ∀ {ms : List RawMatch}, SpansFrom lo hi ms → SpansFrom lo' hi ms
+  | [], _ => trivial
+  | m :: ms, ⟨h1, h2, h3, h4⟩ => ⟨by omega, h2, h3, h4⟩
+
+theorem scanGo_spansL : ∀ (s : List Char) (skip : Nat) (pw : Bool) (pos : Nat),
+    SpansFrom (pos + skip) (pos + s.length) (scanGo skip pw pos s)
+  | [], _, _, _ => by simp [scanGo, SpansFrom]
+  | c :: cs, skip + 1, pw, pos => by
+    simp only [scanGo, List.length_cons]
+    have := scanGo_spansL cs skip (isWordU c) (pos + 1)
+    have e1 : pos + 1 + skip = pos + (skip + 1) := by omega
+    have e2 : pos + 1 + cs.length = pos + (cs.length + 1) := by omega
+    rw [e1, e2] at this; exact this
+  | c :: cs, 0, pw, pos => by
+    simp only [scanGo, List.length_cons]
+    cases hm : matchAt pw (c :: cs) with
+    | none =>
+      have := scanGo_spansL cs 0 (isWordU c) (pos + 1)
+      have e2 : pos + 1 + cs.length = pos + (cs.length + 1) := by omega
+      rw [e2] at this
+      exact this.weaken (by omega)
+    | some m =>
+      have hl := matchAtK_len _ keywordChars_nonempty pw (c :: cs) m hm
+      simp only [List.length_cons] at hl
+      have := scanGo_spansL cs (m.len - 1) (isWordU c) (pos + 1)
+      have e1 : pos + 1 + (m.len - 1) = pos + m.len := by omega
+      have e2 : pos + 1 + cs.length = pos + (cs.length + 1) := by omega
+      rw [e1, e2] at this
+      exact ⟨by simp [M.at], by simp [M.at]; omega, by simp [M.at]; omega, by simpa [M.at] using this⟩
+
+
 end Fsic.Lx
